@@ -81,6 +81,30 @@ def _limits(cpu):
     return f
 
 
+def _group_blocked(pgid, samples=10, gap=0.1):
+    """True if, over `samples` looks, no thread of any process in the process group was runnable or in disk wait."""
+    seen = 0
+    for _ in range(samples):
+        for pid in os.listdir("/proc"):
+            if not pid.isdigit():
+                continue
+            try:
+                st = open("/proc/%s/stat" % pid).read()
+                rest = st[st.rindex(")") + 2:].split()
+                if int(rest[2]) != pgid:
+                    continue
+                for tid in os.listdir("/proc/%s/task" % pid):
+                    ts = open("/proc/%s/task/%s/stat" % (pid, tid)).read()
+                    state = ts[ts.rindex(")") + 2:].split()[0]
+                    seen += 1
+                    if state in ("R", "D"):
+                        return False
+            except (OSError, ValueError, IndexError):
+                continue
+        time.sleep(gap)
+    return seen > 0
+
+
 def _san_summary(err_text):
     """Classifies what a sanitizer said on stderr. Returns short tag or None."""
     m = re.search(r"ERROR: AddressSanitizer: ([a-zA-Z0-9_-]+)", err_text)
@@ -121,7 +145,9 @@ def run_process(job, exe, prop, seed, cases, verbose=False, extra_env=None, stdi
     try:
         out, err = p.communicate(timeout=wall)
     except subprocess.TimeoutExpired:
-        timed_out = True
+        # the wall-clock watchdog fired. That is a verdict only if every thread of the process group is blocked (a deadlock takes no
+        # CPU time, so the CPU limit never fires); with runnable threads the machine was merely busy: inconclusive, never a violation
+        timed_out = "blocked" if _group_blocked(p.pid) else "starved"
         try:
             os.killpg(p.pid, 9)
         except OSError:
@@ -190,7 +216,15 @@ def run_job(job, exe, prop, seed, res, max_restarts=6):
         tag = _san_summary(err)
         case_id = crash.get("case") if crash else None
         what = crash.get("what") if crash else ("timeout" if timed_out else "exit:%s" % rc)
-        is_hang = timed_out or what == "SIGXCPU" or rc == -24 or rc == -9
+        if timed_out == "starved":
+            # not a verdict: retried once, then reported as inconclusive
+            if not hang_retry:
+                hang_retry = True
+                continue
+            with res.lock:
+                res.inconclusive.append("%s: wall-clock watchdog (%.0fs) fired twice while threads were still runnable: machine too busy" % (job.label, wall))
+            return
+        is_hang = bool(timed_out) or what == "SIGXCPU" or rc == -24 or rc == -9
         if is_hang and not hang_retry:
             # judge hangs on CPU time and only if they reproduce
             hang_retry = True
@@ -208,7 +242,7 @@ def run_job(job, exe, prop, seed, res, max_restarts=6):
         v = {"t": "viol", "prop": prop,
              "key": "%s/%s/%s" % (prop, kind, "hang" if is_hang else "crash:" + (tag or what)),
              "case": case_id or job.label, "step": crash.get("step") if crash else None,
-             "msg": ("the process running this history " + ("did not finish within %d s of CPU time (twice)" % job.cpu if is_hang else
+             "msg": ("the process running this history " + (("made no progress with every thread blocked (twice, %.0f s each)" % wall if timed_out else "did not finish within %d s of CPU time (twice)" % job.cpu) if is_hang else
                      "died: %s%s" % (what, (" [" + tag + "]") if tag else ""))),
              "trace": [], "job": job.label, "seed": seed, "jobobj": job, "log": logname}
         with res.lock:
